@@ -345,4 +345,17 @@ pub fn write_synthetic_dirs(root: &str, tier: Tier) {
             std::fs::write(format!("{}/NewBDL_O.tbl", d), tbl).unwrap();
         }
     }
+    // a directory whose name holds blanks and non-ASCII letters, and one that holds only the KyG file of the pair
+    let d = format!("{}/proyecto ñ con espacios (copia)", root);
+    std::fs::create_dir_all(&d).unwrap();
+    std::fs::write(format!("{}/edificio nº 1.ctehexml", d), ctehexml_text(&specs[1])).unwrap();
+    let src = format!("{}/gen01", root);
+    let d = format!("{}/only-kyg", root);
+    std::fs::create_dir_all(&d).unwrap();
+    let _ = std::fs::copy(format!("{}/gen01.ctehexml", src), format!("{}/only-kyg.ctehexml", d));
+    let _ = std::fs::copy(format!("{}/KyGananciasSolares.txt", src), format!("{}/KyGananciasSolares.txt", d));
+    let d = format!("{}/only-tbl", root);
+    std::fs::create_dir_all(&d).unwrap();
+    let _ = std::fs::copy(format!("{}/gen01.ctehexml", src), format!("{}/only-tbl.ctehexml", d));
+    let _ = std::fs::copy(format!("{}/NewBDL_O.tbl", src), format!("{}/NewBDL_O.tbl", d));
 }
